@@ -1314,6 +1314,25 @@ class Evaluator:
     def truthy(self, v: Term) -> Term:
         return v
 
+    def beta(self, t: Term, rounds: int = 4) -> Term:
+        """apply lambdas that ended up in call position after a substitution (``getter(operation)`` with ``getter`` taken from a table of lambdas)"""
+        for _ in range(rounds):
+            hits = subterms(t, lambda y: y[0] == "call" and isinstance(y[1], tuple) and y[1] and y[1][0] == "lambda" and y[1][1] in self.lambdas and y[2] and not y[3])
+            if not hits:
+                break
+            mp = {}
+            for h in hits:
+                try:
+                    r = self.apply_callable(h[1], h[2][0], Frame(None, None, {}, None, 0), tuple(h[2][1:]))
+                except Unsupported:
+                    r = None
+                if r is not None:
+                    mp[h] = r
+            if not mp:
+                break
+            t = subst(t, mp)
+        return t
+
     def _mapping_generator(self, f: FunctionInfo, recv: Term, cls: ClassInfo, fr: Frame) -> Optional[Term]:
         """``def m(self): for x in <D over self>: yield <e over x>`` (nothing else) called as ``recv.m()`` is the generator ``(e(x) for x in D)``: a walk over the
         mapped iterator is a walk over D"""
@@ -1883,6 +1902,10 @@ class Evaluator:
             return None
         if f[0] == "localdef" and f[1] in self.localdefs:
             return self.apply_local(self.localdefs[f[1]], [arg] + more, fr)
+        if not more and (f in (("global", "truth"), ("global", "bool")) or f == ("attr", ("global", "operator"), "truth")):
+            return self.truthy(arg)                 # operator.truth(x) / bool(x) as a value
+        if not more and (f == ("global", "not_") or f == ("attr", ("global", "operator"), "not_")):
+            return t_not(self.truthy(arg))          # operator.not_(x)
         """f(arg) for the callables that occur as ``key=`` / ``map`` / ``filter`` arguments: a lambda with its closure, ``attrgetter('a')``, a class
         (construction), a package function, a bound method."""
         if f[0] == "lambda" and f[1] in self.lambdas:
